@@ -360,6 +360,22 @@ def scalar_requests(rng, thorough):
                     out.append("C03 i.%s %s %s" % (op, wi(sm), tok))
                 if i % 2 == 0:
                     out.append("C03 s.rem_assign_u %s %s" % (tok, wu(m)))
+            # small multiples of |s| and of the type's power-of-two boundaries, for every scalar form (always emitted:
+            # a comparison "divisor equals |s|" replaced by a bit-pattern test is wrong on exactly these; C03-s1)
+            fam = [c * a for c in (2, 3, 5, 6)] + [c << (bits - 1) for c in (3, 5, 7)] + [(3 << bits), a << 64, (a << 64) + a]
+            for j, m in enumerate(fam):
+                tok = "%s:%d" % (t, s)
+                out.append("C03 s.rem_assign_u %s %s" % (tok, wu(m)))
+                op = ["rem_s", "s_rem", "rem_assign_s", "div_s", "s_div", "div_assign_s"][(j + k) % 6]
+                sm = -m if (j + k) % 3 == 0 else m
+                if op in ("s_div", "s_rem"):
+                    out.append("C03 i.%s %s %s" % (op, tok, wi(sm)))
+                    if not sg:
+                        out.append("C03 u.%s %s %s" % (op, tok, wu(m)))
+                else:
+                    out.append("C03 i.%s %s %s" % (op, wi(sm), tok))
+                    if not sg:
+                        out.append("C03 u.%s %s %s" % (op, wu(m), tok))
         # the D6 cell for every signed type: MIN %= 2^(N-1)
         if sg:
             out.append("C03 s.rem_assign_u %s:%d %s" % (t, mn, wu(1 << (bits - 1))))
